@@ -13,6 +13,19 @@ from gen import versions as GV
 from run import Prop
 
 BATTERY = str(core.ROOT / "harness" / "battery.py")
+BATTERY2 = str(core.ROOT / "harness" / "battery2.py")
+
+
+def transcript2(bseed, hashseed, oseed):
+    env = dict(os.environ, PYTHONHASHSEED=str(hashseed), VERIF_REPO=str(core.REPO))
+    r = subprocess.run([sys.executable, BATTERY2, str(bseed), str(oseed)], capture_output=True, text=True, env=env, timeout=600)
+    if r.returncode != 0:
+        raise RuntimeError("battery2 failed: " + r.stderr[-400:])
+    out = {}
+    for line in r.stdout.splitlines():
+        k, _, v = line.partition("\t")
+        out[k] = v
+    return out
 
 
 def transcript(bseed, hashseed, oseed):
@@ -73,6 +86,10 @@ class C20(Prop):
     def gen_laws(self, rng, n):
         k = 0
         while k < n:
+            if k % 200 == 100:
+                yield ("all_properties_transcript", {"battery": rng.randrange(1000), "hashseeds": [rng.randrange(1, 4000), rng.randrange(1, 4000)],
+                                                     "orders": [rng.randrange(1000), rng.randrange(1000)]})
+                k += 1
             if k % 200 == 0:
                 yield ("transcript_independent", {"battery": rng.randrange(1000), "hashseeds": [rng.randrange(1, 4000), rng.randrange(1, 4000)],
                                                   "orders": [rng.randrange(1000), rng.randrange(1000)]})
@@ -99,6 +116,19 @@ class C20(Prop):
                         return False, f"hash seed/order {inp['hashseeds'][0]}/{inp['orders'][0]}: {la[:200]}  vs  {inp['hashseeds'][1]}/{inp['orders'][1]}: {lb[:200]}"
                 return False, "transcripts differ in length"
             return True, ""
+        if law == "all_properties_transcript":
+            # every property's own correspondence cases, implementation side only, under two hash seeds / call orders
+            a = transcript2(inp["battery"], inp["hashseeds"][0], inp["orders"][0])
+            b = transcript2(inp["battery"], inp["hashseeds"][1], inp["orders"][1])
+            shared = sorted(set(a) & set(b))
+            if len(shared) < 300:
+                raise RuntimeError(f"only {len(shared)} shared cases")
+            for k in shared:
+                if "REPEAT-DIFFERS" in a[k] or "REPEAT-DIFFERS" in b[k]:
+                    return False, f"{k}: answer changed when the call was repeated later in the same process: {(a[k] if 'REPEAT' in a[k] else b[k])[:240]}"
+                if a[k] != b[k]:
+                    return False, f"{k}: hash seed/order {inp['hashseeds'][0]}/{inp['orders'][0]} -> {a[k][:160]}  vs  {inp['hashseeds'][1]}/{inp['orders'][1]} -> {b[k][:160]}"
+            return True, f"{len(shared)} shared cases"
         rng = random.Random(inp["seed"])
         if law == "set_clause_order":
             near = GV.struct(rng)
